@@ -18,8 +18,8 @@ def holds : Pc → Mx → Bool
   | .s33 _ _, .pL | .s34 _ _, .pL | .s35 _ _, .pL | .s36 _ _, .pL | .s37 _ _, .pL | .s38 _ _ _, .pL => true
   | .r66 _ _ _, .pL | .r67 _ _ _, .pL | .k104 _, .pL | .k105 _, .pL => true
   | .x15, .cL | .x16, .cL | .w44 _, .cL | .w45 _, .cL | .c52 _, .cL | .c53 _, .cL => true
-  | .r74 _ _, .cL | .r75 _ _, .cL | .r76 _ _, .cL | .r77 _ _, .cL | .r78 _ _, .cL | .r79 _, .cL => true
-  | .p83 _ _ _, .cL | .p84 _ _ _, .cL | .p85 _ _ _, .cL | .p86 _ _ _, .cL | .p87 _ _ _, .cL | .p88 _ _ _ _, .cL => true
+  | .r74 _ _, .cL | .r75 _ _, .cL | .r75r _ _, .cL | .r76 _ _, .cL | .r77 _ _, .cL | .r78 _ _, .cL | .r79 _, .cL => true
+  | .p83 _ _ _, .cL | .p84 _ _ _, .cL | .p84r _ _ _, .cL | .p85 _ _ _, .cL | .p86 _ _ _, .cL | .p87 _ _ _, .cL | .p88 _ _ _ _, .cL => true
   | _, _ => false
 
 @[simp] theorem holds_rfExit (th : Th) (n : Nat) (e : Err) (m : Mx) : holds (rfExit th n e).pc m = false :=
